@@ -157,19 +157,18 @@ def sortAssets (a : Assets) : Assets := sortBy (fun x y => classLe x.1 y.1) a
 
 def fitsI128 (a : Assets) : Bool := a.all fun kv => inI128 kv.2
 
-/-- `From<Vec<AssetExpr>> for CanonicalAssets` on the flattened children of an `assets` node.
-`expect_constant_amount` is `unreachable!` on a non-number; the fold uses the unchecked `+`. -/
-def assetsOfChildren : List Expr → Assets → Outcome Assets
+/-- `try_canonical_assets` on the flattened children of an `assets` node: `none` when an
+amount is not a number literal or a running total leaves the `i128` range. -/
+def assetsOfChildren : List Expr → Assets → Option Assets
   | p :: n :: a :: rest, acc =>
     match a with
     | .leaf (.number amount) =>
       let one := Assets.fromAsset (Assets.constPolicy (nameExprOf p)) (Assets.constName (nameExprOf n)) amount
       let raw := Assets.addRaw acc one
-      if fitsI128 raw then assetsOfChildren rest (Assets.retainNZ raw)
-      else .panic "assets.rs:Add:overflow"
-    | _ => .panic "reduce/mod.rs:expect_constant_amount:unreachable"
-  | [], acc => .ok acc
-  | _, _ => .err "shape:assets"
+      if fitsI128 raw then assetsOfChildren rest (Assets.retainNZ raw) else none
+    | _ => none
+  | [], acc => some acc
+  | _, _ => none
 
 /-- `From<CanonicalAssets> for Vec<AssetExpr>`, entries in canonical order. -/
 def childrenOfAssets (a : Assets) : List Expr :=
@@ -188,10 +187,12 @@ def errUn (op : String) : Outcome Expr := .err ("InvalidUnaryOp:" ++ op)
 def arithNeg : Expr → Outcome Expr
   | .leaf .none => .ok (.leaf .none)
   | .leaf (.number x) => if inI128 (-x) then .ok (.leaf (.number (-x))) else errUn "neg"
-  | .node .assets cs => do
-    let a ← assetsOfChildren cs []
-    let r := Assets.neg a
-    if fitsI128 r then .ok (assetsNode r) else errUn "neg"
+  | .node .assets cs =>
+    (match assetsOfChildren cs [] with
+     | some a =>
+       let r := Assets.neg a
+       if fitsI128 r then .ok (assetsNode r) else errUn "neg"
+     | none => errUn "neg")
   | _ => errUn "neg"
 
 def arithAdd (x y : Expr) : Outcome Expr :=
@@ -204,14 +205,16 @@ def arithAdd (x y : Expr) : Outcome Expr :=
      | _ => errBin "add")
   | .node .assets cs =>
     (match y with
-     | .node .assets ds => do
-       let b ← assetsOfChildren ds []
-       let a ← assetsOfChildren cs []
-       let raw := Assets.addRaw a b
-       if fitsI128 raw then .ok (assetsNode (Assets.retainNZ raw)) else errBin "add"
-     | .leaf .none => do
-       let a ← assetsOfChildren cs []
-       .ok (assetsNode (Assets.retainNZ (Assets.addRaw a [])))
+     | .node .assets ds =>
+       (match assetsOfChildren ds [], assetsOfChildren cs [] with
+        | some b, some a =>
+          let raw := Assets.addRaw a b
+          if fitsI128 raw then .ok (assetsNode (Assets.retainNZ raw)) else errBin "add"
+        | _, _ => errBin "add")
+     | .leaf .none =>
+       (match assetsOfChildren cs [] with
+        | some a => .ok (assetsNode (Assets.retainNZ (Assets.addRaw a [])))
+        | none => errBin "add")
      | _ => errBin "add")
   | _ => errBin "add"
 
@@ -308,7 +311,7 @@ def reduceCoerce (c : KKind) (cs : List Expr) : Outcome Expr :=
   | .noop, [x] => .ok x
   | .intoAssets, [x] => intoAssets x
   | .intoDatum, [x] => intoDatum x
-  | .intoScript, [_] => .panic "reduce/mod.rs:Coerce::reduce_self:todo"
+  | .intoScript, [_] => errUn "into_script"
   | _, _ => .err "shape:coerce"
 
 /-! ### reduce -/
